@@ -208,7 +208,15 @@ func (w *World) applyBad(op M, line M) {
 			ask(x)
 		}
 	case "ask.dup":
-		if k := w.anyKey(r, func(a *shimAsk) bool { return a.Node == "" }); k != nil {
+		// a duplicate of an ask that is still outstanding: not bound, and not one the core has already told the shim to release
+		outstanding := func(a *shimAsk) bool {
+			if a.Node != "" || w.sAskOps[a.Key] == nil {
+				return false
+			}
+			app := w.P.GetApplication(a.App)
+			return app != nil && app.GetAllocationAsk(a.Key) != nil && !app.GetAllocationAsk(a.Key).IsAllocated()
+		}
+		if k := w.anyKey(r, outstanding); k != nil {
 			o := w.sAskOps[k.Key]
 			x := w.askFromOp(o)
 			x.NodeID = ""
